@@ -2,7 +2,6 @@ package main
 
 import (
 	"fmt"
-	"go/ast"
 	"go/token"
 	"go/types"
 	"strings"
@@ -70,71 +69,85 @@ func c02Lint(p *Prog, r *Report, rule string) {
 // the Partial test, the one for the delete filter under the Delete test.
 func c02ExtractFilter(p *Prog, r *Report) {
 	r.Rule("R3e", "CmdType.ExtractFilter assigns its first result only under a test of CmdControl.Partial and its second only under a test of CmdControl.Delete")
-	fd, pk := p.FuncDecl("model", "CmdType", "ExtractFilter")
-	if fd == nil || fd.Body == nil || fd.Type.Results == nil {
-		r.Undecided("R3e", "anchor:model.CmdType.ExtractFilter", "", "method not found")
+	fn := p.Method("model", "CmdType", "ExtractFilter")
+	if fn == nil || fn.Blocks == nil || fn.Signature.Results().Len() != 2 {
+		r.Undecided("R3e", "anchor:model.CmdType.ExtractFilter", "", "method with two results not found")
 		return
 	}
-	info := pk.TypesInfo
-	var results []types.Object
-	for _, f := range fd.Type.Results.List {
-		for _, n := range f.Names {
-			results = append(results, info.Defs[n])
-		}
-	}
-	if len(results) != 2 {
-		r.Undecided("R3e", "model.CmdType.ExtractFilter|results", p.Pos(fd.Pos()), "two named results expected")
-		return
-	}
-	want := map[types.Object]string{results[0]: "Partial", results[1]: "Delete"}
+	want := []string{"Partial", "Delete"}
 	n := 0
-	var stack []ast.Node
-	ast.Inspect(fd.Body, func(node ast.Node) bool {
-		if node == nil {
-			stack = stack[:len(stack)-1]
-			return true
-		}
-		stack = append(stack, node)
-		as, ok := node.(*ast.AssignStmt)
-		if !ok {
-			return true
-		}
-		for _, lhs := range as.Lhs {
-			id, ok := lhs.(*ast.Ident)
-			if !ok {
-				continue
-			}
-			role, ok := want[info.Uses[id]]
-			if !ok {
+	for k := 0; k < 2; k++ {
+		for _, as := range resultAssignments(fn, k) {
+			if c, isC := as.Val.(*ssa.Const); isC && c.IsNil() {
 				continue
 			}
 			n++
-			// innermost enclosing if (body branch) must test <x>.CmdControl.<role> != nil
-			tested := ""
-			for i := len(stack) - 1; i >= 0 && tested == ""; i-- {
-				ifs, isIf := stack[i].(*ast.IfStmt)
-				if !isIf || i+1 >= len(stack) || stack[i+1] != ast.Node(ifs.Body) {
-					continue
-				}
-				be, isB := ast.Unparen(ifs.Cond).(*ast.BinaryExpr)
-				if !isB || be.Op != token.NEQ {
-					tested = "?"
-					break
-				}
-				if se, ok := ast.Unparen(be.X).(*ast.SelectorExpr); ok {
-					if inner, ok := ast.Unparen(se.X).(*ast.SelectorExpr); ok && inner.Sel.Name == "CmdControl" {
-						tested = se.Sel.Name
+			tested := map[string]bool{}
+			for _, g := range Guards(as.Block) {
+				if x, trueNil, ok := nilTest(g.Cond); ok && trueNil != g.Val {
+					pth := Path(x)
+					for _, role := range want {
+						if strings.HasSuffix(pth, ".CmdControl."+role) {
+							tested[role] = true
+						}
 					}
 				}
-				if tested == "" {
-					tested = "?"
-				}
 			}
-			r.Check("R3e", "model.CmdType.ExtractFilter|assign:"+role, tested == role, p.Pos(as.Pos()), fmt.Sprintf("result for the %s filter is assigned under a test of CmdControl.%s", strings.ToLower(role), tested))
+			r.Check("R3e", "model.CmdType.ExtractFilter|assign:"+want[k], tested[want[k]] && !tested[want[1-k]], p.Pos(as.Pos), fmt.Sprintf("result for the %s filter is assigned under non-nil tests of CmdControl.%v", strings.ToLower(want[k]), sortedKeys(tested)))
 		}
-		return true
-	})
+	}
 	r.Floor("R3e", "result assignments", n, 2)
+}
+
+type resultAssign struct {
+	Val   ssa.Value
+	Block *ssa.BasicBlock
+	Pos   token.Pos
+}
+
+// resultAssignments: the values that flow into result k of fn, with the block in
+// which each is chosen (a store to the result cell, or the predecessor of a phi edge).
+func resultAssignments(fn *ssa.Function, k int) []resultAssign {
+	var res []resultAssign
+	seen := map[ssa.Value]bool{}
+	var walk func(v ssa.Value, at *ssa.BasicBlock, pos token.Pos, depth int)
+	walk = func(v ssa.Value, at *ssa.BasicBlock, pos token.Pos, depth int) {
+		if depth > 8 {
+			return
+		}
+		switch x := v.(type) {
+		case *ssa.Phi:
+			if seen[x] {
+				return
+			}
+			seen[x] = true
+			for i, e := range x.Edges {
+				walk(e, x.Block().Preds[i], x.Pos(), depth+1)
+			}
+		case *ssa.UnOp:
+			if al, ok := x.X.(*ssa.Alloc); ok && x.Op == token.MUL {
+				if seen[al] {
+					return
+				}
+				seen[al] = true
+				for _, ref := range *al.Referrers() {
+					if st, ok := ref.(*ssa.Store); ok && st.Addr == ssa.Value(al) {
+						walk(st.Val, st.Block(), st.Pos(), depth+1)
+					}
+				}
+				return
+			}
+			res = append(res, resultAssign{v, at, pos})
+		default:
+			res = append(res, resultAssign{v, at, pos})
+		}
+	}
+	for _, b := range fn.Blocks {
+		if ret, ok := b.Instrs[len(b.Instrs)-1].(*ssa.Return); ok && k < len(ret.Results) {
+			walk(ret.Results[k], b, ret.Pos(), 0)
+		}
+	}
+	return res
 }
 
 // c02Persist: on the inbound routes the remote feature's data is updated with
